@@ -301,6 +301,16 @@ pub fn contexts() -> Vec<Ctx> {
         ("(?(X)a\\K|b)", Box::new(move |x| CondExpr(b(x), b(Concat(vec![la(), KeepOut])), b(lb())))),
         ("(?((?<=\\Ka))X|b)", Box::new(move |x| CondExpr(b(Look(b(Concat(vec![KeepOut, la()])), true, false)), b(x), b(lb())))),
         ("(?((?=a))a(?=X\\K)|b)", Box::new(move |x| CondExpr(b(Look(b(la()), false, false)), b(Concat(vec![la(), Look(b(Concat(vec![x, KeepOut])), false, false)])), b(lb())))),
+        // a delegate with groups that is reached twice at one position (after backtracking undid
+        // its saves)
+        ("(?:(a)|(.))(?=(X))\\2", Box::new(move |x| Concat(vec![Alt(vec![Node::group(la()), Node::group(Any(false))]), Look(b(Node::group(x)), false, false), Backref(2)]))),
+        ("(?:(?>(X))+){2}", Box::new(move |x| Repeat(b(Repeat(b(Atomic(b(Node::group(x)))), 1, None, Mode::Greedy)), 2, Some(2), Mode::Greedy))),
+        // a counted repeat with a hard body as the last element of a committing construct, a literal behind it
+        ("(?=(?:\\b(aX)|(a)){1,2})a", Box::new(move |x| Concat(vec![Look(b(Repeat(b(Alt(vec![Concat(vec![Assert(A::WordB), Node::group(Concat(vec![la(), x]))]), Node::group(la())])), 1, Some(2), Mode::Greedy)), false, false), la()]))),
+        ("(?>(?>X){1,2})a", Box::new(move |x| Concat(vec![Atomic(b(Repeat(b(Atomic(b(x))), 1, Some(2), Mode::Greedy))), la()]))),
+        // a look-behind alternative that is itself a group holding an alternation (lengths may differ: must be rejected)
+        ("(?<=a|(?:b|X))c?", Box::new(move |x| Concat(vec![Look(b(Alt(vec![la(), NonCap(b(Alt(vec![lb(), x])))])), true, false), Repeat(b(Node::lit("c")), 0, Some(1), Mode::Greedy)]))),
+        ("(?<!(?:X|ab)|a)b", Box::new(move |x| Concat(vec![Look(b(Alt(vec![NonCap(b(Alt(vec![x, ab()]))), la()])), true, true), lb()]))),
         // an optional group that ends in a negative look-around (its Split branch and the
         // look-around's own branch sit next to each other on the stack)
         ("a(?:X|(?!b))?b", Box::new(move |x| Concat(vec![la(), Repeat(b(Alt(vec![x, Look(b(lb()), false, true)])), 0, Some(1), Mode::Greedy), lb()]))),
